@@ -180,9 +180,13 @@ def r5_counter_arithmetic(cx):
         rev = [ci for ci, ct in inc.calls() if callee_is(ct, "iter::Iterator::rev")]
         wadd = [(ci, ct) for ci, ct in inc.calls() if callee_is(ct, "num::<impl u8>::wrapping_add") and ci in li.blocks]
         okr = len(rng) == 1 and [op_const(o) for o in rng[0]["rv"]["ops"]] == [0, nonce_len]
+        if not rng:
+            # idiom A': for byte in self.0.iter_mut().rev(): the whole array, last byte first
+            im = [ct for ci, ct in inc.calls() if callee_is(ct, "slice::<impl [T]>::iter_mut") and ct["args"]]
+            okr = len(im) == 1 and (lambda r: r is not None and r["l"] == 1 and len([e for e in r.get("p", []) if e["k"] == "field"]) == 1)(deep_root(inc, im[0]["args"][0]))
         okw = len(wadd) == 1 and op_const(wadd[0][1]["args"][1]) == 1
         # store back at the same index
-        stores = [(bi, s) for bi, si, s in inc.stmts() if s["k"] == "assign" and any(e["k"] == "index" for e in s["place"].get("p", [])) and bi in li.blocks]
+        stores = [(bi, s) for bi, si, s in inc.stmts() if s["k"] == "assign" and any(e["k"] in ("index", "deref") for e in s["place"].get("p", [])) and bi in li.blocks]
         # early exit iff the new byte is non-zero
         exit_ok = False
         for (src, dst) in li.other_exits:
